@@ -279,7 +279,7 @@ func TestC03E2E(t *testing.T) {
 					sent, obs := runStProg(t, reg, p)
 					tags := append(k.tags(), "part=e2e", fmt.Sprintf("rpc=%s", map[int]string{2: "server-stream", 3: "bidi"}[rk]), "position=unread-messages-then-"+variant)
 					em.Emit(Rec{Idx: idx, Kind: "e2e-stream-" + variant, Desc: p.desc(), Tags: tags,
-						Coq: fmt.Sprintf("%s %d %s %s %s", ctor, rk, k.coq(reg), zs(sent), obs)})
+						Coq: fmt.Sprintf("%s %d %s %s %s", ctor, rk+map[string]int{"deadline": 10}[variant], k.coq(reg), zs(sent), obs)})
 					stEnd(em, idx)
 					idx++
 				}
